@@ -38,7 +38,10 @@ Proof. exact block_update_no_steal. Qed.
 Print Assumptions c19_no_steal.
 
 (* Every address returned by a completed assign is recorded for that handle in a version of its block that was
-   really written (H' is a history of the successful writes, consistent with the final datastore). *)
+   really written (H' is a history of the successful writes, consistent with the final datastore).  op_post covers
+   AutoAssign / AssignIP with MaxAllocToHandlePerIPVersion too (OpAutoAssignM, OpAssignIPM: Presm, Paipm): the
+   addresses reused through handleMaxAllocReached and AssignIP's "already assigned to this handle" shortcut are
+   returned only if a written block version records them for the handle (recorded_h). *)
 Theorem c19_returned_is_recorded : forall cf fx fy clients evs i l,
   nth_error (sy_clients (sys_run (sys0 cf fx fy clients) evs)) i = Some (CRun (Ret l)) ->
   exists H', Cas.store_hist (sy_store (sys_run (sys0 cf fx fy clients) evs)) H' /\ Cas.hist_ok VI H' /\
